@@ -2,7 +2,7 @@
    migrate dry src dst ts is the copy loop over the paired tasks of the name-mode and the parameter-mode
    chain (m_src: <task dir>/<config name>.<ext>, m_dst: <task dir>/<key>.<ext>). *)
 From Coq Require Import String Ascii List Bool Arith ZArith.
-From TC Require Import PyStr Value Dict Repr Param Config Key Chain Eval Migration MigrationProofs.
+From TC Require Import PyStr Value Dict Repr Param Config Key Chain World Eval Migration MigrationProofs MigTwiceProofs.
 Import ListNotations.
 
 (* every result that exists in name mode has a result at its key location afterwards ... *)
@@ -62,3 +62,29 @@ Theorem C20_idempotent_partial : forall dry t src dst p e,
   dget p (snd (migrate_one dry (src, dst) t)) = Some e -> dget p dst = Some e \/ e = FDir.
 Proof. exact occupied_target_is_skipped. Qed.
 Print Assumptions C20_idempotent_partial.
+
+(* The composition over the whole loop: migrating again - really or as a dry run - leaves the target exactly as the
+   first migration left it.  The side condition: no result name of the source is one of the task directories or their
+   parents (with it, whether a task has a source result is the same question at every point of both runs; the target
+   side needs no condition). *)
+Theorem C20_second_migration_changes_nothing : forall dry ts src dst,
+  (forall t t', In t ts -> In t' ts -> ~ In (m_src t) (dir_paths (m_dir t'))) ->
+  snd (migrate dry (fst (migrate false src dst ts)) (snd (migrate false src dst ts)) ts) = snd (migrate false src dst ts).
+Proof. exact second_migration_changes_nothing. Qed.
+Print Assumptions C20_second_migration_changes_nothing.
+
+(* migrate_to_parameter_mode is that loop over a list of task pairs which depends on the configuration only, not on
+   what the two directories hold - so the list is the same for the second call *)
+Theorem C20_migration_is_a_loop : forall H w base,
+  (exists e, forall dry src dst, migrate_config H w base dry src dst = inr e) \/
+  (exists ts, forall dry src dst, migrate_config H w base dry src dst = inl (migrate dry src dst ts)).
+Proof. exact migrate_config_is_a_loop. Qed.
+Print Assumptions C20_migration_is_a_loop.
+
+Example C20_second_migration_hypothesis_satisfiable :
+  let t1 := {| m_persisting := true; m_dir := lit "g/b"; m_src := lit "g/b/cfg.json"; m_dst := lit "g/b/0123.json" |} in
+  let t2 := {| m_persisting := true; m_dir := lit "a"; m_src := lit "a/cfg.pickle"; m_dst := lit "a/4567.pickle" |} in
+  let src := [(lit "g", FDir); (lit "g/b", FDir); (lit "g/b/cfg.json", FValue (VInt 1%Z))] in
+  (forall t t', In t [t1; t2] -> In t' [t1; t2] -> ~ In (m_src t) (dir_paths (m_dir t'))) /\
+  dget (lit "g/b/0123.json") (snd (migrate false src [] [t1; t2])) = Some (FValue (VInt 1%Z)).
+Proof. exact second_migration_example. Qed.
